@@ -13,6 +13,7 @@ import RigoProofs.C15Punish
 import RigoProofs.C15Snapshot
 import RigoProofs.C15Majority
 import RigoProofs.C15Reach3
+import RigoProofs.C15Overflow
 
 namespace Rigo.C15
 open Rigo Rigo.Render
@@ -49,12 +50,48 @@ theorem merge_unset_keeps (old : Params) (n : POpt) :
     path) was sent by a member of `lastVals` to the zero address, starts after the current height, has a
     period within [min, max], applying ≥ end + lazyApplyingBlocks, at least one option, all options
     parsing for the GOVPARAMS type; the stored proposal is `snapshotProposal`: voters = `lastVals`
-    addresses with their total powers (sorted by address), total = Σ, majority = ⌊2·total/3⌋. -/
+    addresses with their total powers (sorted by address), total = Σ, majority = ⌊2·total/3⌋.
+    Hypothesis `hfit` (`ProposalHeightsFit`, RigoProofs/WrapI64.lean; decidable; true of every transaction that is
+    not a proposal): the heights do not overflow — `start`, `period` and the parameter `lazyApplyingBlocks` are
+    int64 values (the Go types guarantee this, the model carries unbounded integers) and
+    `start + period + lazyApplyingBlocks < 2^63`.  It is needed for the conjunct "applying ≥ end +
+    lazyApplyingBlocks" ONLY: `GovCtrler.ValidateTrx` computes `end + LazyApplyingBlocks()` in int64 without an
+    overflow guard and the model follows the code (`proposal_overflow_accepted`); every other conjunct holds without
+    it (`only_validators_propose_int64`). -/
 theorem only_validators_propose {s : St} {e : Bool} {h : Int} {tx : TxIn} (htype : tx.type = TRX_PROPOSAL)
-    (hc : (handleTx s e h tx).2.code = 0) :
+    (hc : (handleTx s e h tx).2.code = 0) (hfit : ProposalHeightsFit s tx) :
     ∃ msg start period applying optType opts, ProposalAccepted s e h tx msg start period applying optType opts ∧
       (handleTx s e h tx).1.props = s.props.set e (ledgerKey tx.hash) (snapshotProposal s tx start period applying optType opts) :=
-  proposal_success htype hc
+  proposal_success htype hc hfit
+
+/-- the same WITHOUT any hypothesis, the height tests as the Go code performs them (`ProposalAcceptedW.heights`:
+    `start ≤ end`, `end ≤ applying`, `end + lazyApplyingBlocks ≤ applying` with both sums in int64) -/
+theorem only_validators_propose_int64 {s : St} {e : Bool} {h : Int} {tx : TxIn} (htype : tx.type = TRX_PROPOSAL)
+    (hc : (handleTx s e h tx).2.code = 0) :
+    ∃ msg start period applying optType opts, ProposalAcceptedW s e h tx msg start period applying optType opts ∧
+      (handleTx s e h tx).1.props = s.props.set e (ledgerKey tx.hash) (snapshotProposal s tx start period applying optType opts) :=
+  proposal_successW htype hc
+
+/-- **proposal_overflow_accepted** — why `only_validators_propose` needs `hfit`.  A reachable state (`ovS3`: genesis
+    `ovG` = voting periods of exactly 10 blocks, `lazyApplyingBlocks` = 10; two empty blocks, BeginBlock 3) in which
+    the validator A submits start = 2^63 − 11, period = 10, applying = 2^63 − 1.  `end` = 2^63 − 1 is an int64 value,
+    `end + lazyApplyingBlocks` wraps to −2^63 + 9: the transaction is answered with code 0 (as the Go code does; the
+    former unbounded model function refused it) and the proposal is stored — also in the reachable state `ovSP`
+    after DeliverTx — with `applying < start + period + lazyApplyingBlocks` on unbounded integers.  The proposal can
+    never open for voting, so nothing else goes wrong. -/
+theorem proposal_overflow_accepted :
+    Reachable ovG ovS3 ∧ ovS3.blk = some { height := 3 } ∧ ovS3.active.lazyApplyingBlocks = 10 ∧
+    ovTx.type = TRX_PROPOSAL ∧
+    ovTx.payload = .proposal "" 9223372036854775797 10 9223372036854775807 PROPOSAL_GOVPARAMS [C10P.voA, C10P.voB] ∧
+    ¬ ProposalHeightsFit ovS3 ovTx ∧
+    (handleTx ovS3 true 3 ovTx).2.code = 0 ∧
+    validateProposalOld (ovS3.findOrNewAcct true ovTx.to).1 true 3 ovTx = .error (.err "payloadparams") ∧
+    Reachable ovG ovSP ∧
+    ∃ p, (handleTx ovS3 true 3 ovTx).1.props.get true (ledgerKey ovTx.hash) = some p ∧
+      ovSP.props.fin[ledgerKey ovTx.hash]? = some p ∧
+      p.start = 9223372036854775797 ∧ p.end_ = 9223372036854775807 ∧ p.applying = 9223372036854775807 ∧
+      p.applying < p.start + 10 + ovS3.active.lazyApplyingBlocks :=
+  ⟨ovS3_reachable, ovS3_blk, ovS3_lazy, rfl, rfl, ov_not_fit, ovTx_code0, ovS3z_old_rejects, ovSP_reachable, ov_stored⟩
 
 /-- the snapshot: every voter is a current validator with its total power, nobody has voted, all tallies
     are 0, and (validators being distinct) the per-proposal invariant `PropOK` holds with
@@ -248,6 +285,9 @@ example : ProposalAccepted sVal true 3 txProp "" 4 1 6 PROPOSAL_GOVPARAMS
   lazyApply := by decide
   hasOption := by simp
   parse := by intro _ o ho; simp at ho; subst ho; rfl
+
+/-- the hypothesis of `only_validators_propose` is satisfiable: the heights of `txProp` do not overflow -/
+example : ProposalHeightsFit sVal txProp := by decide
 
 /-- the recorded snapshot: total 10, majority ⌊20/3⌋ = 6, tally 0 (the voter list is the address-sorted
     `lastVals`, see `voters_are_snapshot`) -/
